@@ -5,3 +5,4 @@ cd /verif/harness
 export CARGO_NET_OFFLINE=true
 cargo build --release --offline -p vcheck
 cargo build --release --offline -p fs_nowat
+( cd /repo && CARGO_TARGET_DIR=/verif/harness/target/wac-cli cargo build --release --offline --bin wac )
